@@ -181,7 +181,8 @@ _c14 = [L2("ZZ_S07b_RetryTimeout", 1, labels=["concurrency:"], note="the executi
         L2("ZZ_S07a_Timeout", 2, labels=["concurrency:"], note="race/deadlock/panic verdicts of the timeout scenario"),
         L2("ZZ_S09a_Hedge", 1, params={"max_hedges": 1}, labels=["concurrency:"], note="race/deadlock/panic verdicts of the hedge scenario"),
         L2("ZZ_S15a_Async", 1, params={"readers": 2}, labels=["concurrency:"], note="race/deadlock/panic verdicts of the async scenario"),
-        L2("ZZ_S06a_Bulkhead", 0, params={"max_m": 1}, labels=["concurrency:"], note="race/deadlock/panic verdicts of the bulkhead scenario")]
+        L2("ZZ_S06a_Bulkhead", 0, params={"max_m": 1}, labels=["concurrency:"], note="race/deadlock/panic verdicts of the bulkhead scenario"),
+        L2("ZZ_S08c_CancelHedge", 1, params={"max_hedges": 2}, labels=["concurrency:"], note="hedged execution (maxHedges 2) cancelled during a hedge delay while several attempts are outstanding: the attempt goroutines do not block each other or the coordinator (deadlock verdicts); P=1")]
 _c14t = [L2("ZZ_S07b_RetryTimeout", 2, labels=["concurrency:"], note="P=2"), L2("ZZ_S04b_HalfOpen", 2, params={"max_cap": 1}, labels=["breaker:"], note="P=2"),
          L2("ZZ_S14a_SharedPolicies", 2, params={"execs": 2}, labels=["concurrency:"], time_limit_s=9000, note="P=2"), L2("ZZ_S14b_HedgeInner", 2, labels=["concurrency:"], note="P=2"),
          L2("ZZ_S07a_Timeout", 3, labels=["concurrency:"], note="P=3"), L2("ZZ_S09a_Hedge", 2, params={"max_hedges": 2}, labels=["concurrency:"], time_limit_s=9000, note="P=2"),
@@ -191,7 +192,7 @@ PROPS["C14"] = {"quick": _c14, "thorough": _c14t,
                 "assumptions": ["bounded exploration, not a proof of race freedom; verdicts are happens-before based, so one explored schedule exposes a race that needs a rare schedule to manifest"]}
 _c19 = [L2("ZZ_S07a_Timeout", 1, labels=["leak:"], note="quiescence after Timeout executions"), L2("ZZ_S07b_RetryTimeout", 1, labels=["leak:"], note="after Retry(Timeout)"),
         L2("ZZ_S09a_Hedge", 1, params={"max_hedges": 1}, labels=["leak:"], note="after hedged executions"), L2("ZZ_S08a_CancelRetry", 1, labels=["leak:"], note="after cancelled executions"),
-        L2("ZZ_S08b_CancelWaits", 1, labels=["leak:"], note="after cancelled waits"), L2("ZZ_S08c_CancelHedge", 1, labels=["leak:"], note="after a cancelled hedged execution"), L2("ZZ_S15a_Async", 1, params={"readers": 1}, labels=["leak:"], note="async runner"),
+        L2("ZZ_S08b_CancelWaits", 1, labels=["leak:"], note="after cancelled waits"), L2("ZZ_S08c_CancelHedge", 1, labels=["leak:"], note="after a cancelled hedged execution"), L2("ZZ_S08c_CancelHedge", 1, params={"max_hedges": 2}, labels=["leak:"], note="same with maxHedges 2 (two outstanding attempts)"), L2("ZZ_S15a_Async", 1, params={"readers": 1}, labels=["leak:"], note="async runner"),
         L2("ZZ_S06a_Bulkhead", 0, params={"max_m": 1}, labels=["leak:"], note="after bulkhead executions"),
         L2("ZZ_S07f_TimeoutCtxCancel", 1, labels=["leak:"], note="Timeout execution ended by context cancellation: timer stopped, nothing left")]
 PROPS["C19"] = {"quick": _c19, "thorough": _c19}
@@ -223,6 +224,10 @@ PROPS["C13"] = {
 }
 PROPS["C02"]["quick"].append(L2("ZZ_S02d_ConcurrentBudgets", 1, labels=["retry:", "stats:"], note="two concurrent async executions sharing one retry policy (max 1 retry), symbolic durations/outcomes; P=1"))
 PROPS["C02"]["thorough"].append(L2("ZZ_S02d_ConcurrentBudgets", 2, labels=["retry:", "stats:"], time_limit_s=3000, note="P=2"))
+PROPS["C02"]["quick"].append(L2("ZZ_S02e_NestedMaxDuration", 0, labels=["retry:", "stats:"], note="Retry(max 2)(Retry(max 3, max duration M)(fn sleeping d)), M,d symbolic: the inner policy gives up once (count or duration) and is not consulted again; P=0"))
+PROPS["C02"]["thorough"].append(L2("ZZ_S02e_NestedMaxDuration", 1, labels=["retry:", "stats:"], note="P=1"))
+PROPS["C16"]["quick"].append(L2("ZZ_S02e_NestedMaxDuration", 0, labels=["events:"], note="nested retry policies with an inner max duration: OnRetriesExceeded once per policy and execution, OnRetry once per retry started; P=0"))
+PROPS["C16"]["thorough"].append(L2("ZZ_S02e_NestedMaxDuration", 1, labels=["events:"], note="P=1"))
 PROPS["C02"]["quick"].append(L2("ZZ_S13h_RetryDelay", 1, labels=["retry:"], note="max duration: no retry after a failure handled once maxDuration elapsed; symbolic durations; P=1"))
 PROPS["C02"]["thorough"].append(L2("ZZ_S13h_RetryDelay", 2, labels=["retry:"], note="max duration; P=2"))
 _c18 = [J("failsafehttp", "ZZ_H18a_RetryableStatus", note="status code symbolic in [100,600) through the real RetryPolicyBuilder"),
